@@ -351,6 +351,98 @@ def links : Facts := [
   ("mapres", "Array.prototype:Array"), ("funproto", "Object.prototype:Object"), ("descres", "Object.prototype:Object"),
   ("strmethod", "Function.prototype:Function")]
 
+/-! ### "each of the specified KIND": the start-up objects that ES5 says are special objects must behave as such -/
+
+/-- §15.x.4 "The … prototype object is itself a(n) … object", §15.3.4, §15.8, §15.12 -/
+inductive Kind
+  | ordinary | function | array | string | boolean | number | date | regexp | error | math | json
+  deriving DecidableEq, Repr
+
+def kindOf : Owner → Kind
+  | .ArrayPrototype => .array                 -- §15.4.4  "is itself an array"
+  | .StringPrototype => .string               -- §15.5.4  "is itself a String object … whose value is an empty String"
+  | .BooleanPrototype => .boolean             -- §15.6.4  "… whose value is false"
+  | .NumberPrototype => .number               -- §15.7.4  "… whose value is +0"
+  | .DatePrototype => .date                   -- §15.9.5  "is itself a Date object … whose [[PrimitiveValue]] is NaN"
+  | .RegExpPrototype => .regexp               -- §15.10.6 "is itself a regular expression object"
+  | .FunctionPrototype => .function           -- §15.3.4  "is itself a Function object … accepts any arguments and returns undefined"
+  | .ErrorPrototype | .EvalErrorPrototype | .TypeErrorPrototype | .RangeErrorPrototype | .ReferenceErrorPrototype
+  | .SyntaxErrorPrototype | .URIErrorPrototype => .error      -- §15.11.4, §15.11.7.7
+  | .Object | .Function | .Array | .String | .Boolean | .Number | .Date | .RegExp | .Error | .EvalError | .TypeError
+  | .RangeError | .ReferenceError | .SyntaxError | .URIError => .function
+  | .Math => .math | .JSON => .json
+  | _ => .ordinary
+
+/-- how otto's object model represents an object of each kind – "<class>:<table of internal methods>:<Go type of value>" – as its
+    own constructors for instances do (type_array.go newArrayObject, type_string.go newStringObject, type_boolean.go, type_number.go,
+    type_date.go, type_regexp.go, type_function.go, type_error.go); a start-up object of that kind must be represented the same way -/
+def repOf (o : Owner) : String :=
+  match kindOf o with
+  | .array => "Array:Array:<nil>"
+  | .string => "String:String:stringASCII"
+  | .boolean => "Boolean:Object:Value"
+  | .number => "Number:Object:Value"
+  | .date => "Date:Object:dateObject"
+  | .regexp => "RegExp:Object:regExpObject"
+  | .function => "Function:Object:nativeFunctionObject"
+  | .error => "Error:Object:<nil>"
+  | .math => "Math:Object:<nil>"
+  | .json => "JSON:Object:<nil>"
+  | .ordinary => if o = .global then "environment:Object:<nil>" else "Object:Object:<nil>"   -- global [[Class]] is implementation-defined
+
+/-- behavioural aspects asked of EVERY owner (they separate the array [[DefineOwnProperty]] of §15.4.5.1 from §8.12.9):
+    idxlen  `b = O.length; O[5] = 1; O.length`        "6" for an array, "same" otherwise
+    lenneg / lenfrac / lenbig  `O.length = -1 | 1.5 | 4294967296`   "RangeError" for an array, "noerror" otherwise (sloppy mode)
+    shrink  `O[3] = 1; O.length = 1; 3 in O`           "deleted" for an array, "kept" otherwise -/
+def universalAspects : List String := ["idxlen", "lenneg", "lenfrac", "lenbig", "shrink", "call"]
+
+/-- `call`: "notcallable", or "returns:<typeof O()>" (§15.x.1 "called as a function", §15.3.4) -/
+def callResult : Owner → String
+  | .Object | .Array | .RegExp | .Error | .EvalError | .TypeError | .RangeError | .ReferenceError | .SyntaxError | .URIError => "returns:object"
+  | .Function => "returns:function"
+  | .String | .Date => "returns:string"       -- §15.5.1.1 String() is "", §15.9.2 Date() is a String
+  | .Boolean => "returns:boolean" | .Number => "returns:number"
+  | .FunctionPrototype => "returns:undefined"
+  | _ => "notcallable"
+
+def arrayAspect : String → String
+  | "idxlen" => "6" | "lenneg" | "lenfrac" | "lenbig" => "RangeError" | "shrink" => "deleted" | _ => "?"
+def ordinaryAspect : String → String
+  | "idxlen" => "same" | "lenneg" | "lenfrac" | "lenbig" => "noerror" | "shrink" => "kept" | _ => "?"
+
+/-- aspects asked only of the object of that kind -/
+def kindAspects : Owner → Facts
+  | .StringPrototype => [("wrap", "str:,0,false")]            -- toString() is "", length 0, no own "0"
+  | .BooleanPrototype => [("wrap", "false")]                  -- toString() is "false"
+  | .NumberPrototype => [("wrap", "0,Infinity")]              -- toString() is "0", 1/valueOf() is +Infinity
+  | .DatePrototype => [("datenan", "NaN,Invalid_Date"), ("dateset", "5")]   -- NaN time value; a Date that setTime can set
+  | .RegExpPrototype => [("retest", "true"), ("restr", "/(?:)/")]           -- the empty pattern matches everything
+  | .FunctionPrototype => [("newthrows", "TypeError")]
+  | .Math => [("newthrows", "TypeError")] | .JSON => [("newthrows", "TypeError")]    -- §15.8, §15.12: no [[Construct]], no [[Call]]
+  | .ErrorPrototype => [("errstr", "Error")] | .EvalErrorPrototype => [("errstr", "EvalError")]
+  | .TypeErrorPrototype => [("errstr", "TypeError")] | .RangeErrorPrototype => [("errstr", "RangeError")]
+  | .ReferenceErrorPrototype => [("errstr", "ReferenceError")] | .SyntaxErrorPrototype => [("errstr", "SyntaxError")]
+  | .URIErrorPrototype => [("errstr", "URIError")]
+  | _ => []
+
+def aspect (o : Owner) (a : String) : Option String :=
+  if a = "call" then some (callResult o)
+  else if universalAspects.contains a then some (if kindOf o = .array then arrayAspect a else ordinaryAspect a)
+  else assoc a (kindAspects o)
+
+def aspectsOf (o : Owner) : List String := universalAspects ++ (kindAspects o).map (·.1)
+
+/-- the same behaviours for values the language creates (arrays §15.4.5, String objects §15.5.5, arguments objects §10.6) -/
+def behaviours : Facts :=
+  (["arrlit", "newarr", "arrcall", "splitres", "jsonarr", "concatres"].flatMap (fun s =>
+     [(s ++ "_idxlen", "6"), (s ++ "_lenneg", "RangeError"), (s ++ "_lenfrac", "RangeError"), (s ++ "_lenbig", "RangeError"), (s ++ "_shrink", "deleted")])) ++
+  [("objlit_idxlen", "same"), ("objlit_lenneg", "noerror"), ("objlit_shrink", "kept"),
+   ("args_idxlen", "same"), ("args_shrink", "kept"),
+   ("strobj_idx0", "a|-e-"), ("strobj_len", "2|---"), ("strobj_write", "a"), ("strobj_names", "0,1,length"), ("strobj_idxlen", "same"),
+   ("args_mapped", "5"), ("args_lenattrs", "w-c"), ("args_callee", "self|w-c"), ("args_class", "Arguments"),
+   -- Annex B.2.6: "the same Function object"
+   ("gmt_is_utc", "true")]
+
 /-! ### the reflected shape of one running runtime (the regenerated `Gen*.lean` files define one `Dump` each) -/
 structure Dump where
   ents : List (Owner × Props)      -- owner ↦ own properties in Object.getOwnPropertyNames order, each with its shape token
@@ -358,6 +450,8 @@ structure Dump where
   binds : List (Owner × Facts)     -- owner ↦ Go-level wiring of each own property (hook VerifC14Static)
   forIn : Facts
   links : Facts
+  kinds : List (Owner × Facts)     -- owner ↦ "@self" and every object-valued slot ↦ "<class>:<objectClass>:<Go type of value>" (hook)
+  behaviours : Facts               -- behaviour of arrays / String objects / arguments objects the language creates
   order : String                   -- "consistent" iff propertyOrder = keys(property) on every reachable object
   evalLink : String                -- "ok" iff rt.eval is the object bound to the global property `eval`
 
